@@ -1007,7 +1007,18 @@ func (interp *Interpreter) cfg(root *node, sc *scope, importPath, pkgName string
 		case defineXStmt:
 			wireChild(n)
 			if sc.def == nil {
-				// In global scope, type definition already handled by GTA.
+				// In global scope, type definition already handled by GTA. The generator
+				// of the source, reset by the post-order processing of its node, is set again.
+				switch src := n.lastChild(); {
+				case src.kind == indexExpr:
+					src.gen = getIndexMap2
+				case src.kind == typeAssertExpr && n.child[0].ident == "_":
+					src.gen = typeAssertStatus
+				case src.kind == typeAssertExpr:
+					src.gen = typeAssertLong
+				case src.kind == unaryExpr && src.action == aRecv:
+					src.gen = recv2
+				}
 				break
 			}
 			err = compDefineX(sc, n)
@@ -2462,6 +2473,18 @@ func fixUntyped(nod *node, sc *scope) {
 func compDefineX(sc *scope, n *node) error {
 	l := len(n.child) - 1
 	types := []*itype{}
+	// srcType returns the type of a node of the right-hand side. It is already known
+	// when called from cfg, not when called from gta (statements evaluated interactively).
+	srcType := func(c *node) (*itype, error) {
+		if c.typ != nil {
+			return c.typ, nil
+		}
+		t, err := nodeType(n.interp, sc, c)
+		if err == nil && t == nil {
+			err = c.cfgErrorf("undefined type")
+		}
+		return t, err
+	}
 
 	switch src := n.child[l]; src.kind {
 	case callExpr:
@@ -2498,7 +2521,11 @@ func compDefineX(sc *scope, n *node) error {
 		}
 
 	case indexExpr:
-		types = append(types, src.typ, sc.getType("bool"))
+		styp, err := srcType(src)
+		if err != nil {
+			return err
+		}
+		types = append(types, styp, sc.getType("bool"))
 		n.child[l].gen = getIndexMap2
 		n.gen = nop
 
@@ -2508,12 +2535,27 @@ func compDefineX(sc *scope, n *node) error {
 		} else {
 			n.child[l].gen = typeAssertLong
 		}
-		types = append(types, n.child[l].child[1].typ, sc.getType("bool"))
+		styp, err := srcType(n.child[l].child[1])
+		if err != nil {
+			return err
+		}
+		types = append(types, styp, sc.getType("bool"))
 		n.gen = nop
 
 	case unaryExpr:
 		if n.child[l].action == aRecv {
-			types = append(types, src.typ, sc.getType("bool"))
+			styp := src.typ
+			if styp == nil {
+				// The element type of the channel operand.
+				ctyp, err := srcType(src.child[0])
+				if err != nil {
+					return err
+				}
+				if styp = ctyp.val; styp == nil {
+					return src.cfgErrorf("invalid operation: receive from non-chan type")
+				}
+			}
+			types = append(types, styp, sc.getType("bool"))
 			n.child[l].gen = recv2
 			n.gen = nop
 		}
